@@ -223,6 +223,70 @@ theorem blocks_unknown {t : ClassFacts} (hok : ∀ a ∈ t.attrs, a.name ∉ cla
   · intro st _
     exact applyAll_class_unknown st ncs t.attrs hlen
 
+/-- one row of `BootstrapMethods` -/
+theorem writeBsmRow_spec {p p' : Pool} {b : Bsm} {bytes : Bytes} (hg : Good p)
+    (hh : ∃ h : ClassRead.Handle, handleOk h ∧ b.handle = handleOf h) (h : writeBsmRow p b = .ok (bytes, p')) :
+    Step p p' ∧ ∃ l : SBsm, bytes = l.encode ∧ l.args = b.args ∧ l.handle = rdHandle b.handle ∧ l.handleCp < 65536 ∧
+      HandleAt p' l.handleCp l.handle ∧ handleOk l.handle ∧ l.args.length < 65536 := by
+  obtain ⟨hd, hok, he⟩ := hh
+  obtain ⟨⟨i, p1⟩, h1, h⟩ := bind_eq_ok.mp h
+  obtain ⟨c, h2, h⟩ := bind_eq_ok.mp h
+  obtain ⟨hl, rfl⟩ := cnt16_eq_ok.mp h2
+  have := pure_eq_ok.mp h
+  simp only [Prod.mk.injEq] at this
+  obtain ⟨rfl, rfl⟩ := this
+  rw [he] at h1
+  obtain ⟨s, a, hi⟩ := putHandle_spec (h := hd) hg h1
+  exact ⟨s, ⟨i, hd, b.args⟩, rfl, rfl, by rw [he, rdHandle_handleOf hok], hi, a, hok, by show b.args.length < 65536; omega⟩
+
+/-- the `BootstrapMethods` block: written exactly when a bootstrap method was put while the members were written; it
+establishes the table `bsTable bs` for the reader -/
+theorem ablock_bootstrap {bs : List Bsm} (hb : BsOk bs) {p p' : Pool} {o : Option Bytes} (hg : Good p)
+    (h : onlyIf (!bs.isEmpty) (attrBuf sBootstrapMethods (fun p => writeSlice16 writeBsmRow p bs)) p = .ok (o, p')) :
+    Step p p' ∧ GBlock ownClass o p' (fun st => st.2.1 = none) (fun st => (st.1, bsTable bs, st.2.2)) := by
+  rcases onlyIf_inv h with ⟨hc, b, hbb, rfl⟩ | ⟨hc, rfl, rfl⟩
+  · obtain ⟨bb, p1, i, h1, h2, hlen, rfl⟩ := attrBuf_inv hbb
+    obtain ⟨hl, bb', h3, rfl⟩ := writeSlice16_inv h1
+    obtain ⟨s1, ls, rfl, hlen', hr⟩ := writeList_spec' writeBsmRow SBsm.encode
+      (fun b : Bsm => ∃ h : ClassRead.Handle, handleOk h ∧ b.handle = handleOf h)
+      (fun p (b : Bsm) (l : SBsm) => l.args = b.args ∧ l.handle = rdHandle b.handle ∧ l.handleCp < 65536 ∧
+        HandleAt p l.handleCp l.handle ∧ handleOk l.handle ∧ l.args.length < 65536)
+      (fun p p' a l hle hr => ⟨hr.1, hr.2.1, hr.2.2.1, hr.2.2.2.1.mono hle, hr.2.2.2.2⟩)
+      (fun p p' a b hg hP h => writeBsmRow_spec hg hP h) bs p p1 bb' hg hb.handles h3
+    obtain ⟨s2, a2, hi⟩ := putUtf8_spec s1.good h2
+    have hne : bs.isEmpty = false := by simpa using hc
+    refine ⟨s1.trans s2, ?_⟩
+    have hframe : attrFrame i (be16 bs.length ++ ls.flatMap SBsm.encode) = SClassAttr.frame (.bootstrapMethods i ls) := by
+      simp [SClassAttr.frame, SClassAttr.raw, hlen']
+    rw [hframe]
+    refine gblock_present (O := ownClass) (.bootstrapMethods i ls) ?_ ?_
+    · intro q hq
+      refine ⟨hi, getUtf8_of hq.good (a2.mono hq.le), by omega, ?_, by rw [hlen']; omega⟩
+      intro l hlm
+      obtain ⟨x, hx, hz⟩ := zip_mem_of_mem hlen' hlm
+      obtain ⟨b1, b2, b3, b4, b5, b6⟩ := hr _ hz
+      refine ⟨b3, getMethodHandle_of hq.good ((b4.mono s2.le).mono hq.le) b5, b6, ?_⟩
+      intro a ha
+      rw [b1] at ha
+      exact hb.args x hx a ha
+    · intro st hst
+      simp only [ownClass, SClassAttr.apply, hst, Option.isNone_none, if_true]
+      congr 3
+      simp only [bsTable, hne, Bool.false_eq_true, if_false]
+      congr 1
+      apply map_eq_of_zip _ ls (bs.map rdBsm) (by simp [hlen'])
+      intro x hx
+      rw [List.zip_map_right] at hx
+      obtain ⟨y, hy, rfl⟩ := List.mem_map.mp hx
+      obtain ⟨b1, b2, _⟩ := hr y hy
+      simp [rdBsm, b1, b2]
+  · have he : bs = [] := by
+      cases bs with
+      | nil => rfl
+      | cons _ _ => simp at hc
+    subst he
+    exact ⟨Step.refl hg, gblock_absent (fun st hst => by obtain ⟨a, b, c⟩ := st; simp only at hst; subst hst; rfl)⟩
+
 /-- the `Record` block: sets the components and the "a `Record` attribute was seen" flag of the accumulator -/
 theorem ablock_record {t : ClassFacts} {o : Option Bytes} {q : Pool}
     (c : (t.recordComponents = [] ∧ o = none) ∨
